@@ -284,29 +284,46 @@ def header_writer_rule(prog, res, rule='header-write', int_scale_ok=False):
     f = prog.fn('ezc3d::Header::write', nparams=1)
     ex = codec.Extractor(prog, 'w')
     flat, _ = flatten(prog, ex.seq_of(f), 'ezc3d::Header')
-    items = [d for d in flat if d.get('k') == 'write']
+    items = []
     for d in flat:
-        if d.get('k') in ('loop?', 'alt'):
-            if any(x[0] == 'io' for x in _walk(d)):
-                res.undecided(rule, 'header layout', d['where'], 'writes under a condition or in a loop with unknown trip count', function=f.sig, expr='shape')
+        if d.get('k') == 'write':
+            items.append(d)
+        elif d.get('k') in ('loop?', 'alt') and any(x[0] == 'io' for x in _walk(d)):
+            items.append(dict(d, k='barrier'))
     off = 0
     ii = 0
     nfields = 0
+    lost = None
     for fld in spec['header']:
         want_off = (fld['word'] - 1) * 2 + (fld.get('byte', 1) - 1)
         total = fld['bytes'] * fld['count']
         inst = 'header.word%d.%s' % (fld['word'], fld['name'])
         got = []
         acc = 0
-        while ii < len(items) and acc < total:
+        while lost is None and ii < len(items) and acc < total:
             d = items[ii]
-            w = width_const(d)
+            w = width_const(d) if d.get('k') == 'write' else None
             if w is None:
+                lost = d
                 break
             got.append(d)
             acc += w * d['rep']
             ii += 1
         nfields += 1
+        if lost is not None:
+            res.undecided(rule, inst, lost['where'], 'the byte position of this field cannot be tabulated: the writer emits %s before it' %
+                          ('bytes under a condition or in a loop with unknown trip count' if lost.get('k') == 'barrier' else 'a buffer of non-constant length (%s)' % lost.get('src')),
+                          function=f.sig, expr=inst)
+            continue
+        opq = [d for d in got if d.get('srck') == 'other' or (d.get('srck') == 'array' and d.get('src_from') is None)]
+        if opq and off == want_off:
+            # a local buffer filled elsewhere: its content is not tabulated, its length is
+            res.undecided(rule, inst, opq[0]['where'], 'emitted from the local buffer %s, whose content the extractor does not tabulate' % opq[0].get('src'), function=f.sig, expr=inst)
+            off += acc
+            if acc > total:
+                # the buffer also covers following fields: consume them
+                pass
+            continue
         if off != want_off or acc != total:
             res.viol(rule, inst, got[0]['where'] if got else f.loc(),
                      'specified at byte %d, %d bytes; the writer is at byte %d and emits %d bytes here' % (want_off, total, off, acc), function=f.sig, expr=inst)
@@ -351,7 +368,9 @@ def header_writer_rule(prog, res, rule='header-write', int_scale_ok=False):
             res.viol(rule, inst, got[0]['where'], bad, function=f.sig, expr=inst, facts={'cite': fld['cite']})
         else:
             res.ok(rule, inst, got[0]['where'], '%d byte(s) at offset %d <- %s' % (total, want_off, fld['member']), function=f.sig, expr=inst)
-    if ii != len(items):
+    if lost is not None:
+        pass
+    elif ii != len(items):
         res.viol(rule, 'header.tail', items[ii]['where'], 'writer emits more than the 512-byte header', function=f.sig, expr='tail')
     elif off != 512:
         res.viol(rule, 'header.size', f.loc(), 'header writer emits %d bytes, not 512' % off, function=f.sig, expr='size')
@@ -692,28 +711,54 @@ def group_writer_rule(prog, res, rule='group-write'):
 
 
 def recursion_scheme(prog, f, cur_param, dim_param, leaf_kind):
-    """f(cur): for (i < dim[cur]) { if (cur == dim.size()-1) LEAF else f(.., cur+1, ..) }  ->
-    (ok, detail, leaf items).  cur_param/dim_param are parameter indices."""
+    """f(cur):  for (i < dim[cur]) { if (cur == dim.size()-1) LEAF else f(.., cur+1, ..) }
+    or, with the depth test hoisted out of the loop,
+                if (cur == dim.size()-1) { for (i < dim[cur]) LEAF } else { for (i < dim[cur]) f(.., cur+1, ..) }
+    ->  (ok, detail, leaf items).  cur_param/dim_param are parameter indices.  A detail starting with
+    'shape: ' means the function is not in either shape (nothing demonstrated)."""
     seq = io_only(codec.Extractor(prog, leaf_kind).seq_of(f))
     top = [it for it in seq if it[0] in ('loop', 'io', 'alt', 'call')]
-    if len(top) != 1 or top[0][0] != 'loop':
-        return False, 'shape: body is not a single loop', None
-    lp = top[0]
-    if pshow(lp[1]) != 'arg%d[arg%d]' % (dim_param, cur_param):
-        return False, 'loop bound is %s, expected dim[currentIdx]' % pshow(lp[1]), None
-    inner = io_only(lp[3])
-    if len(inner) != 1 or inner[0][0] != 'alt':
-        return False, 'shape: loop body is not a single if/else on the recursion depth', None
-    alt = inner[0]
-    if alt[1] not in ('(arg%d == (arg%d.size - 1))' % (cur_param, dim_param), '((arg%d.size - 1) == arg%d)' % (dim_param, cur_param)):
-        return False, 'leaf test is %s, expected currentIdx == dim.size()-1' % alt[1], None
-    els = io_only(alt[3])
-    if len(els) != 1 or els[0][0] != 'call' or els[0][1].usr != f.usr:
-        return False, 'shape: non-leaf branch is not exactly the recursive call', None
-    sub = els[0][2]
-    if sub.get('arg%d' % cur_param) != '(arg%d + 1)' % cur_param or sub.get('arg%d' % dim_param) != 'arg%d' % dim_param:
-        return False, 'recursive call passes %s / %s, expected (dim, currentIdx + 1)' % (sub.get('arg%d' % dim_param), sub.get('arg%d' % cur_param)), None
-    return True, '', alt[2]
+    LEAFTEST = ('(arg%d == (arg%d.size - 1))' % (cur_param, dim_param), '((arg%d.size - 1) == arg%d)' % (dim_param, cur_param))
+    BOUND = 'arg%d[arg%d]' % (dim_param, cur_param)
+
+    def rec_ok(els):
+        if len(els) != 1 or els[0][0] != 'call' or els[0][1].usr != f.usr:
+            return 'shape: non-leaf branch is not exactly the recursive call'
+        sub = els[0][2]
+        if sub.get('arg%d' % cur_param) != '(arg%d + 1)' % cur_param or sub.get('arg%d' % dim_param) != 'arg%d' % dim_param:
+            return 'recursive call passes %s / %s, expected (dim, currentIdx + 1)' % (sub.get('arg%d' % dim_param), sub.get('arg%d' % cur_param))
+        return None
+    if len(top) == 1 and top[0][0] == 'loop':
+        lp = top[0]
+        if pshow(lp[1]) != BOUND:
+            return False, 'loop bound is %s, expected dim[currentIdx]' % pshow(lp[1]), None
+        inner = io_only(lp[3])
+        if len(inner) != 1 or inner[0][0] != 'alt':
+            return False, 'shape: loop body is not a single if/else on the recursion depth', None
+        o = orient(inner[0], LEAFTEST)
+        if o is None:
+            if re.match(r'^[()!=<> \d]*(?:(?:arg%d\.size|arg%d|- 1|\+ 1)[()!=<> \d]*)+$' % (dim_param, cur_param), inner[0][1]):
+                return False, 'leaf test is %s, expected currentIdx == dim.size()-1' % inner[0][1], None
+            return False, 'shape: leaf test %s is not a comparison of the depth the rule reads' % inner[0][1], None
+        why = rec_ok(io_only(o[1]))
+        if why:
+            return False, why, None
+        return True, '', o[0]
+    if len(top) == 1 and top[0][0] == 'alt':
+        o = orient(top[0], LEAFTEST)
+        if o is None:
+            return False, 'shape: depth test %s is not currentIdx == dim.size()-1' % top[0][1], None
+        lf_, rc_ = io_only(o[0]), io_only(o[1])
+        if len(lf_) != 1 or lf_[0][0] != 'loop' or len(rc_) != 1 or rc_[0][0] != 'loop':
+            return False, 'shape: the two depth branches are not one loop each', None
+        for lp in (lf_[0], rc_[0]):
+            if pshow(lp[1]) != BOUND:
+                return False, 'loop bound is %s, expected dim[currentIdx]' % pshow(lp[1]), None
+        why = rec_ok(io_only(rc_[0][3]))
+        if why:
+            return False, why, None
+        return True, '', lf_[0][3]
+    return False, 'shape: body is neither a single loop nor a single depth test', None
 
 
 def parameter_writer_rule(prog, res, rule='parameter-write'):
@@ -1181,21 +1226,21 @@ def payload_reader(prog, res, rule, f, ck):
         c.r_field('data', 'readInt', 'arg0', dest='arg2[+]', cite=L['data']['cite'])
         c.done()
     else:
-        res.viol(rule, 'parameter.element[int].recursion', g4.loc(), why, function=g4.sig, expr='parameter.element[int].recursion')
+        (res.undecided if why.startswith('shape: ') else res.viol)(rule, 'parameter.element[int].recursion', g4.loc(), why, function=g4.sig, expr='parameter.element[int].recursion')
     okr, why, leaf = recursion_scheme(prog, g3, 2, 0, 'r')
     if okr:
         c = RChecker(prog, res, rule, g3, leaf, 'parameter.element[float]')
         c.r_field('data', 'readFloat', 4, dest='arg1[+]', cite=L['data']['cite'])
         c.done()
     else:
-        res.viol(rule, 'parameter.element[float].recursion', g3.loc(), why, function=g3.sig, expr='parameter.element[float].recursion')
+        (res.undecided if why.startswith('shape: ') else res.viol)(rule, 'parameter.element[float].recursion', g3.loc(), why, function=g3.sig, expr='parameter.element[float].recursion')
     okr, why, leaf = recursion_scheme(prog, rm, 2, 0, 'r')
     if okr:
         c = RChecker(prog, res, rule, rm, leaf, 'parameter.element[char]')
         c.r_field('data', 'readString', 1, dest='arg1[+]', cite=L['data']['cite'])
         c.done()
     else:
-        res.viol(rule, 'parameter.element[char].recursion', rm.loc(), why, function=rm.sig, expr='parameter.element[char].recursion')
+        (res.undecided if why.startswith('shape: ') else res.viol)(rule, 'parameter.element[char].recursion', rm.loc(), why, function=rm.sig, expr='parameter.element[char].recursion')
     # dispatch in Parameter::read
     want = {'-1': (g2.usr, {'arg0': 'this._dimension', 'arg1': 'this._param_data_string'}),
             '1': (g4.usr, {'arg0': '(unsigned int)this._data_type', 'arg1': 'this._dimension', 'arg2': 'this._param_data_int'}),
@@ -1225,58 +1270,171 @@ def payload_reader(prog, res, rule, f, ck):
     string_assembly_rule(prog, res, rule, g2)
 
 
+def _helper_family(prog, roots):
+    """[(Func, {rendering in Func: rendering in the root that called it})] for the given functions and
+    the file-local helpers they call (one level), with the helpers' parameters expressed in the caller's terms"""
+    out = [(f, {}) for f in roots]
+    for f in roots:
+        R = Renderer(f)
+        for c in f.calls():
+            cf = prog.funcs.get(c['callee'].get('usr')) if c['callee'].get('inrepo') else None
+            if cf is None or cf.body is None or not (cf.rec.get('internal') or '(anonymous namespace)' in cf.qname):
+                continue
+            sub = {'arg%d' % k: R.render(a) for k, a in enumerate(f.call_args(c))}
+            out.append((cf, sub))
+    return out
+
+
+def _advances_by_helper(prog, dm, Rd, asg):
+    """asg is `idx = helper(.., idx, dimension[0], ..)` where the file-local helper returns (its index parameter + its count parameter)"""
+    c = dm.nodes[dm.strip(asg['ch'][1], 'all')]
+    if c['k'] != 'CallExpr' or not c.get('callee', {}).get('inrepo'):
+        return False
+    hf = prog.funcs.get(c['callee']['usr'])
+    if hf is None or hf.body is None or not (hf.rec.get('internal') or '(anonymous namespace)' in hf.qname):
+        return False
+    Rh = Renderer(hf)
+    rets = [Rh.render(r_['ch'][0]) for r_ in hf.all_nodes({'ReturnStmt'}) if r_['ch']]
+    if len(rets) != 1:
+        return False
+    m = re.match(r'^\(arg(\d+) \+ arg(\d+)\)$', rets[0])
+    if not m:
+        return False
+    args = dm.call_args(c)
+    a, b = int(m.group(1)), int(m.group(2))
+    if max(a, b) >= len(args):
+        return False
+    ra, rb = Rd.render(args[a]), Rd.render(args[b])
+    return {ra, rb} == {'arg3', 'arg0[0]'}
+
+
 def string_assembly_rule(prog, res, rule, g2):
+    """readParam(dim, strings) reads prod(dim) one-character cells through _readMatrix, then joins
+    dim[0] of them per string (1-D: one string; matrix: _dispatchMatrix) and trims trailing spaces.
+    The joining may live in file-local helpers.  Three-valued: a demonstrated defect (a string
+    stored untrimmed, a join over another width, an index that never advances) is a violation; a
+    form the rule does not read is UNDECIDED."""
     R = Renderer(g2)
     dm = prog.fn('ezc3d::c3d::_dispatchMatrix', nparams=5)
     seq = io_only(codec.Extractor(prog, 'r').seq_of(g2))
     first = seq[0] if seq else None
-    if not (first and first[0] == 'call' and first[1].name == '_readMatrix' and first[2].get('arg0') == 'arg0' and first[2].get('arg2', '0') in ('0', 'default')):
-        res.viol(rule, 'parameter.char.assembly', g2.loc(), 'character payload is not read by _readMatrix over all dimensions', function=g2.sig, expr='parameter.char.assembly')
+    if not (first and first[0] == 'call' and first[1].name == '_readMatrix'):
+        res.undecided(rule, 'parameter.char.assembly', g2.loc(), 'character payload is not read by one leading call of _readMatrix: %s [shape not read by the rule]' % _describe(first),
+                      function=g2.sig, expr='parameter.char.assembly')
         return
-    # every string that is pushed to the output passed through removeTrailingSpaces
+    if not (first[2].get('arg0') == 'arg0' and first[2].get('arg2', '0') in ('0', 'default')):
+        res.viol(rule, 'parameter.char.assembly', g2.loc(), 'character payload is read by _readMatrix(%s, .., %s), not over all dimensions from 0' % (first[2].get('arg0'), first[2].get('arg2')),
+                 function=g2.sig, expr='parameter.char.assembly')
+        return
+    from codec import substitute
+    fam = _helper_family(prog, [g2, dm])
+    outs = {g2.usr: 'arg1', dm.usr: 'arg2'}
     bad = None
-    for f in (g2, dm):
+    unknown = None
+    pushes = 0
+    joins_ok = 0
+
+    def trimmed_local(f, vid, at_vertex):
+        g = f.events()
+        trims = [c for c in f.calls() if c['callee']['qname'] == 'ezc3d::removeTrailingSpaces' and f.nodes[f.strip(c['args'][0], 'all')].get('decl', {}).get('id') == vid]
+        return any(g.vertex_of.get(t['id']) is not None and g.dominates(g.vertex_of[t['id']], at_vertex) for t in trims)
+
+    def join_width(f, sub, vid):
+        """the local string vid is built by `+=` inside counted loops: -> set of trip counts (caller's terms), or None"""
+        from loops import loops_around
         Rf = Renderer(f)
-        outp = 'arg1' if f is g2 else 'arg2'
+        ws = set()
+        found = False
+        for n in f.all_nodes({'CXXOperatorCallExpr'}):
+            if n.get('op') != '+=':
+                continue
+            t = f.nodes[f.strip(n['args'][0], 'all')]
+            if t['k'] != 'DeclRefExpr' or t['decl'].get('id') != vid:
+                continue
+            found = True
+            la = [l for l in loops_around(f, n['id'], Rf)]
+            if not la or la[0]['name'] is None:
+                return None
+            ws.add(substitute(la[0]['bound'], sub) if sub else la[0]['bound'])
+        return ws if found else None
+    for f, sub in fam:
+        Rf = Renderer(f)
+        if f.usr in outs:
+            outp = outs[f.usr]
+        else:
+            # a helper: its output is the parameter that receives the caller's output
+            outp = None
+            for k_, v_ in sub.items():
+                if v_ in ('arg1', 'arg2') and k_.startswith('arg'):
+                    outp = k_
+        g = f.events()
         for n in f.calls():
-            if n['callee']['name'] == 'push_back' and f.call_obj(n) is not None and Rf.render(f.call_obj(n)) == outp:
-                a = f.nodes[f.strip(n['args'][0], 'all')]
-                if a['k'] != 'DeclRefExpr':
-                    bad = 'pushes a non-local at %s' % f.loc(n['id'])
-                    continue
-                vid = a['decl']['id']
-                g = f.events()
-                pv = g.vertex_of.get(n['id'])
-                trims = [c for c in f.calls() if c['callee']['qname'] == 'ezc3d::removeTrailingSpaces' and f.nodes[f.strip(c['args'][0], 'all')].get('decl', {}).get('id') == vid]
-                if not any(g.vertex_of.get(t['id']) is not None and g.dominates(g.vertex_of[t['id']], pv) for t in trims):
+            if not (n['callee']['name'] in ('push_back', 'emplace_back') and f.call_obj(n) is not None and outp is not None and Rf.render(f.call_obj(n)) == outp):
+                continue
+            pushes += 1
+            a = f.nodes[f.strip(n['args'][0], 'all')]
+            pv = g.vertex_of.get(n['id'])
+            if a['k'] == 'DeclRefExpr' and a['decl'].get('dk') == 'local':
+                if not trimmed_local(f, a['decl']['id'], pv):
                     bad = 'string pushed at %s without trailing-space trimming' % f.loc(n['id'])
-    # join width: inner loops run over dimension[0]
-    joins = 0
-    for f in (g2, dm):
-        from loops import normal_for
-        Rf = Renderer(f)
-        for n in f.all_nodes({'ForStmt'}):
-            lf = normal_for(f, n['id'])
-            if lf and lf['start_cv'] == '0' and lf['op'] == '<' and Rf.render(lf['bound']) == 'arg0[0]':
-                body = [f.nodes[x] for x in f.descendants(lf['body'])]
-                if any(b['k'] == 'CXXOperatorCallExpr' and b.get('op') == '+=' for b in body):
-                    joins += 1
+                    continue
+                ws = join_width(f, sub, a['decl']['id'])
+                if ws is None:
+                    unknown = 'the string pushed at %s is not built by appending in a counted loop' % f.loc(n['id'])
+                elif ws != {'arg0[0]'}:
+                    bad = 'the string pushed at %s is joined from %s cells, not dimension[0]' % (f.loc(n['id']), sorted(ws))
+                else:
+                    joins_ok += 1
+            elif a['k'] == 'CallExpr' and a.get('callee', {}).get('inrepo'):
+                hf = prog.funcs.get(a['callee']['usr'])
+                rets = [hf.nodes[hf.strip(r_['ch'][0], 'all')] for r_ in hf.all_nodes({'ReturnStmt'}) if r_['ch']] if hf is not None and hf.body is not None else []
+                if hf is None or not rets or any(r_['k'] != 'DeclRefExpr' or r_['decl'].get('dk') != 'local' for r_ in rets):
+                    unknown = 'the value pushed at %s comes from %s, which the rule cannot read' % (f.loc(n['id']), a['callee'].get('qname'))
+                    continue
+                hg = hf.events()
+                hsub = {'arg%d' % k: (substitute(Rf.render(x), sub) if sub else Rf.render(x)) for k, x in enumerate(f.call_args(a))}
+                okh = True
+                for r_ in hf.all_nodes({'ReturnStmt'}):
+                    rn = hf.nodes[hf.strip(r_['ch'][0], 'all')]
+                    if not trimmed_local(hf, rn['decl']['id'], hg.vertex_of.get(r_['id'])):
+                        bad = 'string returned by %s at %s without trailing-space trimming' % (hf.name, hf.loc(r_['id']))
+                        okh = False
+                        continue
+                    ws = join_width(hf, hsub, rn['decl']['id'])
+                    if ws is None:
+                        unknown = 'the string returned by %s is not built by appending in a counted loop' % hf.name
+                        okh = False
+                    elif ws != {'arg0[0]'}:
+                        bad = 'the string pushed at %s is joined from %s cells, not dimension[0]' % (f.loc(n['id']), sorted(ws))
+                        okh = False
+                if okh:
+                    joins_ok += 1
+            else:
+                unknown = 'the value pushed at %s (%s) is not a local string or the result of a helper' % (f.loc(n['id']), a['k'])
     if bad:
         res.viol(rule, 'parameter.char.assembly', g2.loc(), bad, function=g2.sig, expr='parameter.char.assembly')
-    elif joins < 2:
-        res.viol(rule, 'parameter.char.assembly', g2.loc(), 'strings are not assembled from dimension[0] characters each (found %d join loops over dimension[0])' % joins, function=g2.sig, expr='parameter.char.assembly')
+    elif unknown or pushes == 0 or joins_ok < pushes:
+        res.undecided(rule, 'parameter.char.assembly', g2.loc(), (unknown or 'no store of an assembled string found') + ' [shape not read by the rule]', function=g2.sig, expr='parameter.char.assembly')
     else:
-        res.ok(rule, 'parameter.char.assembly', g2.loc(), 'dimension[0] characters per string, trailing spaces trimmed, in both the 1-D and the matrix path', function=g2.sig, expr='parameter.char.assembly')
+        res.ok(rule, 'parameter.char.assembly', g2.loc(), 'dimension[0] characters per string, trailing spaces trimmed, at each of the %d places a string is stored' % pushes, function=g2.sig, expr='parameter.char.assembly')
     # _dispatchMatrix threads its input index through the recursion (returns it; caller assigns it)
     Rd = Renderer(dm)
     rets = [Rd.render(n['ch'][0]) for n in dm.all_nodes({'ReturnStmt'}) if n['ch']]
     rec_assign = [n for n in dm.all_nodes({'BinaryOperator'}) if n['op'] == '=' and Rd.render(n['ch'][0]) == 'arg3' and any(dm.nodes[x]['k'] == 'CXXMemberCallExpr' and dm.nodes[x]['callee']['usr'] == dm.usr for x in dm.descendants(n['ch'][1]))]
     incs = [n for n in dm.all_nodes({'UnaryOperator'}) if n['op'] == '++' and Rd.render(n['ch'][0]) == 'arg3']
-    if rets == ['arg3'] and len(rec_assign) == 1 and len(incs) == 1:
+    others = [n for n in dm.all_nodes({'BinaryOperator', 'CompoundAssignOperator'}) if n.get('op') in ('=', '+=') and Rd.render(n['ch'][0]) == 'arg3' and n not in rec_assign]
+    if set(rets) == {'arg3'} and len(rec_assign) == 1 and len(incs) == 1 and not others:
         res.ok(rule, 'parameter.char.index', dm.loc(), 'input index advances once per character and is threaded through the recursion', function=dm.sig, expr='parameter.char.index')
+    elif set(rets) == {'arg3'} and len(rec_assign) == 1 and not incs and len(others) == 1 and others[0]['k'] == 'CompoundAssignOperator' and Rd.render(others[0]['ch'][1]) in ('arg0[0]', '(unsigned long)arg0[0]'):
+        res.ok(rule, 'parameter.char.index', dm.loc(), 'input index advances by dimension[0] per string and is threaded through the recursion', function=dm.sig, expr='parameter.char.index')
+    elif set(rets) == {'arg3'} and len(rec_assign) == 1 and not incs and len(others) == 1 and others[0]['k'] == 'BinaryOperator' and _advances_by_helper(prog, dm, Rd, others[0]):
+        res.ok(rule, 'parameter.char.index', dm.loc(), 'input index is advanced by dimension[0] by the joining helper (it returns first + count) and is threaded through the recursion',
+               function=dm.sig, expr='parameter.char.index')
+    elif not incs and not others:
+        res.viol(rule, 'parameter.char.index', dm.loc(), 'the running input index of the string re-assembly never advances: every string would repeat the first cells', function=dm.sig, expr='parameter.char.index')
     else:
-        res.viol(rule, 'parameter.char.index', dm.loc(), 'the running input index of the string re-assembly is not (++ per character, idx = recurse(...), return idx): slices would repeat',
-                 function=dm.sig, expr='parameter.char.index')
+        res.undecided(rule, 'parameter.char.index', dm.loc(), 'the running input index of the string re-assembly is advanced in a form the rule does not read (known: ++ per character or += dimension[0] per string, '
+                      'idx = recurse(...), return idx) [shape not read by the rule]', function=dm.sig, expr='parameter.char.index')
 
 
 # ---------------------------------------------------------------------------------------------
@@ -1883,7 +2041,28 @@ def reemission_rule(prog, res, rule='re-emission'):
             elif m in canon:
                 res.ok(rule, inst, wr.loc(), 'canonicalised on save: ' + canon[m], function=wr.sig, expr=m, nontrivial=False)
             else:
-                res.viol(rule, inst, wr.loc(), 'member %s is filled by the reader but the writer never emits it: it is lost on load -> save' % m, function=wr.sig, expr=m)
+                # the writer may emit it through a local buffer it fills first (memcpy / copy into an array that is then written)
+                opaque = []
+
+                def find_opaque(items):
+                    for it in items:
+                        if it[0] == 'io' and it[1].get('k') == 'write' and it[1].get('srck') in ('array', 'other'):
+                            opaque.append(it[1])
+                        elif it[0] == 'loop':
+                            find_opaque(it[3])
+                        elif it[0] == 'alt':
+                            find_opaque(it[2])
+                            find_opaque(it[3])
+                        elif it[0] == 'call':
+                            find_opaque(it[3])
+                find_opaque(ex.seq_of(wr))
+                Rw = Renderer(wr)
+                used = any(n_['k'] == 'MemberExpr' and n_.get('member') == m and n_.get('fclass') == cls for n_ in wr.nodes)
+                if opaque and used:
+                    res.undecided(rule, inst, wr.loc(), 'member %s is read by the writer and the writer emits a local buffer the extractor does not tabulate (%s): cannot tell whether it is emitted' %
+                                  (m, opaque[0].get('src')), function=wr.sig, expr=m)
+                else:
+                    res.viol(rule, inst, wr.loc(), 'member %s is filled by the reader but the writer never emits it: it is lost on load -> save' % m, function=wr.sig, expr=m)
     res.minimum('reader-assigned members', total, 30)
 
 
